@@ -419,3 +419,52 @@ def i7(facts, tier):
     if n == 0:
         yield ob(["C08", "C15", "C07"], "I7", "no-result-accumulator", "pass", "", "no Result is stored into a loop-carried variable in "
                  "savefile / savefile-abi: errors leave loops by `?` or `return`", nontrivial=False)
+
+
+# ---------------------------------------------------------------------------------------------
+# I8: iterator adaptors that silently drop Err
+
+SWALLOW = ("::flat_map", "::flatten", "::filter_map", "::map_while", "::take_while", "::skip_while")
+
+
+@rule("I8", ["C07", "C08", "C06"], floor=0, doc="no error of the library's error types is dropped by an iterator adaptor: `flat_map` / `flatten` / "
+      "`filter_map(.. .ok())` over values of type Result<_, SavefileError | io::Error> treat Err as 'no element' (Result is IntoIterator), "
+      "so a failed read just shortens the collection")
+def i8(facts, tier):
+    n = 0
+    for f in list(facts.fns_of_crate("savefile")) + list(facts.fns_of_crate("savefile_abi")):
+        body = f.get("body")
+        if not body or f.get("kind") == "Closure":
+            continue
+        for x in walk(body):
+            if x.get("k") != "Call":
+                continue
+            c = callee(x) or ""
+            if not c.endswith(SWALLOW):
+                continue
+            bad = None
+            for a in x.get("args", [])[1:]:
+                p = peel(a)
+                if p.get("k") == "Closure":
+                    g = facts.fns.get(p["id"])
+                    if g is None:
+                        continue
+                    if is_err_result(g.get("ret")):
+                        bad = f"its closure returns `{g.get('ret')}`"
+                    elif (g.get("ret") or "").startswith("core::option::Option<") and any(
+                            y.get("k") == "Call" and (callee(y) or "").endswith(("Result::ok", "Result::err")) and y.get("args")
+                            and is_err_result(peel(y["args"][0]).get("ty")) for y in walk(g["body"])):
+                        bad = "its closure turns a Result into an Option with `.ok()`"
+            if c.endswith("::flatten") and x.get("args"):
+                ity = " ".join(str(t) for t in (x.get("targs") or [])) + " " + (x["args"][0].get("ty") or "")
+                if "SavefileError>" in ity or "io::error::Error>" in ity:
+                    bad = "it flattens an iterator of Results"
+            if bad:
+                n += 1
+                key = f"{f['id']}:{c.rsplit('::', 1)[-1]}"
+                yield ob(["C07", "C08", "C06"], "I8", key, "violation", where(f, x),
+                         f"{f['id']}: `{c.rsplit('::', 1)[-1]}`: {bad}: every Err is silently skipped, so a truncated or failing stream yields a "
+                         f"shorter collection and Ok instead of the error")
+    if n == 0:
+        yield ob(["C07", "C08", "C06"], "I8", "no-swallowing-adaptor", "pass", "", "no flat_map / flatten / filter_map over Results of the library's "
+                 "error types in savefile / savefile-abi", nontrivial=False)
